@@ -1,11 +1,37 @@
-//! Scripted raw-datagram peer (D-peer). Filled in below.
+//! Scripted raw-datagram peer (D-peer): a state-aware interpreter of *intents*. Sequence and
+//! acknowledgement numbers are resolved against what the endpoint under test has actually sent,
+//! so a script stays meaningful whatever the endpoint's exact packetisation is.
+//!
+//! Everything the peer emits goes through the simulated network like any other datagram and is
+//! logged as a `tx` line marked `raw` (the specification holds only library sockets to its rules).
 
-use std::{collections::HashMap, net::SocketAddr};
+use std::{
+    collections::{BTreeSet, HashMap},
+    net::SocketAddr,
+};
 
 use serde_json::Value;
 use tokio::sync::mpsc::UnboundedReceiver;
 
-use crate::{net::{Dgram, SimNet}, trace::Tracer};
+use crate::{
+    ev,
+    net::{Dgram, SimNet, peek, stream_key},
+    stream::fill,
+    trace::Tracer,
+};
+
+#[derive(Clone, Debug)]
+struct Got {
+    ty: u8,
+    cid: u16,
+    seq: u16,
+    #[allow(dead_code)]
+    ack: u16,
+    #[allow(dead_code)]
+    wnd: u32,
+    #[allow(dead_code)]
+    plen: usize,
+}
 
 pub struct RawPeer {
     pub name: String,
@@ -13,12 +39,343 @@ pub struct RawPeer {
     pub net: SimNet,
     pub tracer: Tracer,
     pub rx: UnboundedReceiver<Dgram>,
+
+    target: Option<SocketAddr>,
+    // connection ids: what we put into packets we send / what arrives in packets we receive
+    cid_tx: u16,
+    #[allow(dead_code)]
+    cid_rx: u16,
+    // our sequence space
+    seq_nr: u16, // next seq to use for DATA / FIN
+    // what we received from the endpoint under test
+    got: Vec<Got>,
+    have: BTreeSet<u16>, // DATA/FIN seqs received (wire values)
+    in_order: u16,       // highest in-order seq received (ack_nr we would send)
+    have_base: bool,
+    wnd: u32,
+    // our data stream
+    sent_off: u64,
+    chunks: Vec<(u16, u64, usize)>, // (seq, off, len) of DATA we sent
+    ahead_sent: HashMap<u16, usize>, // seq -> len of chunks sent ahead of the in-order point
+    syn: Option<Got>,
+}
+
+fn dist(a: u16, b: u16) -> i32 {
+    let d = a.wrapping_sub(b) as i32;
+    if d >= 32768 { d - 65536 } else { d }
 }
 
 impl RawPeer {
-    pub fn new(name: &str, addr: SocketAddr, net: SimNet, tracer: Tracer, rx: UnboundedReceiver<Dgram>) -> Self {
-        RawPeer { name: name.to_string(), addr, net, tracer, rx }
+    pub fn new(
+        name: &str,
+        addr: SocketAddr,
+        net: SimNet,
+        tracer: Tracer,
+        rx: UnboundedReceiver<Dgram>,
+    ) -> Self {
+        RawPeer {
+            name: name.to_string(),
+            addr,
+            net,
+            tracer,
+            rx,
+            target: None,
+            cid_tx: 0,
+            cid_rx: 0,
+            seq_nr: 1,
+            got: Vec::new(),
+            have: BTreeSet::new(),
+            in_order: 0,
+            have_base: false,
+            wnd: 1 << 20,
+            sent_off: 0,
+            chunks: Vec::new(),
+            ahead_sent: HashMap::new(),
+            syn: None,
+        }
     }
 
-    pub async fn exec(&mut self, _intent: &Value, _names: &HashMap<String, SocketAddr>, _default: Option<SocketAddr>) {}
+    fn drain(&mut self) {
+        while let Ok((from, data)) = self.rx.try_recv() {
+            if self.target.is_none() {
+                self.target = Some(from);
+            }
+            let Some(h) = peek(&data) else { continue };
+            let g = Got {
+                ty: h.ty,
+                cid: h.cid,
+                seq: h.seq,
+                ack: h.ack,
+                wnd: h.wnd,
+                plen: data.len() - h.hlen,
+            };
+            if h.ty == 4 {
+                // SYN from the endpoint under test: it will send with cid+1 and receive on cid
+                self.syn = Some(g.clone());
+                self.cid_tx = h.cid;
+                self.cid_rx = h.cid.wrapping_add(1);
+                self.in_order = h.seq;
+                self.have_base = true;
+            } else if h.ty == 0 || h.ty == 1 {
+                if !self.have_base {
+                    self.in_order = h.seq.wrapping_sub(1);
+                    self.have_base = true;
+                }
+                if dist(h.seq, self.in_order) > 0 {
+                    self.have.insert(h.seq);
+                }
+                while self.have.remove(&self.in_order.wrapping_add(1)) {
+                    self.in_order = self.in_order.wrapping_add(1);
+                }
+            } else if !self.have_base {
+                // first packet of an accepted connection (SYN-ACK): its seq_nr is the next one it will use
+                self.in_order = h.seq.wrapping_sub(1);
+                self.have_base = true;
+            }
+            self.got.push(g);
+        }
+    }
+
+    /// Move our in-order send point over chunks that were already sent ahead.
+    fn skip_ahead(&mut self) {
+        while let Some(l) = self.ahead_sent.remove(&self.seq_nr) {
+            self.seq_nr = self.seq_nr.wrapping_add(1);
+            self.sent_off += l as u64;
+        }
+    }
+
+    fn header(&self, ty: u8, seq: u16, ack: u16, wnd: u32, sack: Option<Vec<u8>>) -> Vec<u8> {
+        let mut b = vec![0u8; 20];
+        b[0] = (ty << 4) | 1;
+        b[1] = if sack.is_some() { 1 } else { 0 };
+        b[2..4].copy_from_slice(&self.cid_tx.to_be_bytes());
+        let ts = self.tracer.now_us() as u32;
+        b[4..8].copy_from_slice(&ts.to_be_bytes());
+        b[12..16].copy_from_slice(&wnd.to_be_bytes());
+        b[16..18].copy_from_slice(&seq.to_be_bytes());
+        b[18..20].copy_from_slice(&ack.to_be_bytes());
+        if let Some(s) = sack {
+            b.push(0);
+            b.push(s.len() as u8);
+            b.extend_from_slice(&s);
+        }
+        b
+    }
+
+    fn emit(&self, to: SocketAddr, data: &[u8]) {
+        let _ = self.net.send(None, self.addr, to, data);
+    }
+
+    /// SACK bytes for what we hold out of order relative to `ack` (or explicit offsets).
+    fn sack_for(&self, ack: u16, explicit: Option<&Vec<Value>>, len: usize) -> Option<Vec<u8>> {
+        let mut bytes = vec![0u8; len];
+        let mut any = false;
+        match explicit {
+            Some(offs) => {
+                for o in offs {
+                    if let Some(o) = o.as_u64() {
+                        let o = o as usize;
+                        if o / 8 < len {
+                            bytes[o / 8] |= 1 << (o % 8);
+                            any = true;
+                        }
+                    }
+                }
+                if offs.is_empty() {
+                    any = true; // explicit empty SACK
+                }
+            }
+            None => {
+                for s in &self.have {
+                    let o = dist(*s, ack.wrapping_add(2));
+                    if o >= 0 && (o as usize) / 8 < len {
+                        bytes[o as usize / 8] |= 1 << (o as usize % 8);
+                        any = true;
+                    }
+                }
+            }
+        }
+        if any { Some(bytes) } else { None }
+    }
+
+    pub async fn exec(
+        &mut self,
+        intent: &Value,
+        names: &HashMap<String, SocketAddr>,
+        default: Option<SocketAddr>,
+    ) {
+        self.drain();
+        let kind = intent.get("intent").and_then(|v| v.as_str()).unwrap_or("");
+        if let Some(t) = intent.get("to").and_then(|v| v.as_str()) {
+            self.target = names.get(t).copied().or(self.target);
+        }
+        let to = match self.target.or(default) {
+            Some(t) => t,
+            None => return,
+        };
+        self.target = Some(to);
+        if let Some(w) = intent.get("wnd").and_then(|v| v.as_u64()) {
+            self.wnd = w as u32;
+        }
+        let geti = |k: &str, d: i64| intent.get(k).and_then(|v| v.as_i64()).unwrap_or(d);
+        ev!(self.tracer, "peer", "name": &self.name, "intent": intent.clone(),
+            "in_order": self.in_order, "held": self.have.len(), "seq_nr": self.seq_nr);
+        match kind {
+            "syn" => {
+                // we initiate: the endpoint under test receives on cid+1 and sends with cid
+                let cid = geti("cid", 100) as u16;
+                let seq = geti("seq", 1) as u16;
+                self.cid_rx = cid;
+                let save = self.cid_tx;
+                self.cid_tx = cid;
+                let b = self.header(4, seq, 0, 0, None);
+                self.cid_tx = save;
+                self.emit(to, &b);
+                self.cid_tx = cid.wrapping_add(1);
+                self.seq_nr = seq.wrapping_add(1);
+            }
+            "synack" => {
+                if let Some(s) = self.syn.clone() {
+                    let isn = geti("seq", 1000) as u16;
+                    self.seq_nr = isn;
+                    self.cid_tx = s.cid;
+                    let b = self.header(2, isn, s.seq, self.wnd, None);
+                    self.emit(to, &b);
+                }
+            }
+            "ack" => {
+                let rel = geti("rel", 0);
+                let ack = (self.in_order as i64 + rel) as u16;
+                let n = geti("n", 1).max(1);
+                let sack_len = geti("sack_len", 8) as usize;
+                let sack = if intent.get("nosack").and_then(|v| v.as_bool()).unwrap_or(false) {
+                    None
+                } else {
+                    self.sack_for(ack, intent.get("sack").and_then(|v| v.as_array()), sack_len)
+                };
+                let ty = geti("type", 2) as u8;
+                for _ in 0..n {
+                    let b = self.header(ty, self.seq_nr, ack, self.wnd, sack.clone());
+                    self.emit(to, &b);
+                }
+            }
+            "data" => {
+                self.skip_ahead();
+                let len = geti("len", 100) as usize;
+                let ahead = geti("ahead", 0);
+                let again = intent.get("again").and_then(|v| v.as_u64());
+                let key = stream_key(self.net.seed(), self.addr, to, self.cid_tx);
+                let (seq, off, len) = match again {
+                    Some(i) if (i as usize) < self.chunks.len() => self.chunks[i as usize],
+                    _ => {
+                        let seq = (self.seq_nr as i64 + ahead) as u16;
+                        let off = self.sent_off + (ahead.max(0) as u64) * len as u64;
+                        (seq, off, len)
+                    }
+                };
+                let mut b = self.header(0, seq, self.in_order, self.wnd, None);
+                let mut p = vec![0u8; len];
+                fill(key, off, &mut p);
+                b.extend_from_slice(&p);
+                if again.is_none() {
+                    self.chunks.push((seq, off, len));
+                    if ahead == 0 {
+                        self.seq_nr = self.seq_nr.wrapping_add(1);
+                        self.sent_off += len as u64;
+                        self.net
+                            .stream_written(self.addr, to, self.cid_tx, len as u64);
+                    } else {
+                        if ahead > 0 {
+                            self.ahead_sent.insert(seq, len);
+                        }
+                        // out-of-order chunk: account the stream as written up to its end
+                        self.net.stream_written(
+                            self.addr,
+                            to,
+                            self.cid_tx,
+                            (off + len as u64).saturating_sub(self.sent_off),
+                        );
+                    }
+                }
+                self.emit(to, &b);
+            }
+            "fill" => {
+                // send the chunks skipped by earlier "ahead" sends, in order, up to `upto` ahead
+                let len = geti("len", 100) as usize;
+                let count = geti("count", 1);
+                let key = stream_key(self.net.seed(), self.addr, to, self.cid_tx);
+                for _ in 0..count {
+                    self.skip_ahead();
+                    let seq = self.seq_nr;
+                    let off = self.sent_off;
+                    let mut b = self.header(0, seq, self.in_order, self.wnd, None);
+                    let mut p = vec![0u8; len];
+                    fill(key, off, &mut p);
+                    b.extend_from_slice(&p);
+                    self.chunks.push((seq, off, len));
+                    self.seq_nr = self.seq_nr.wrapping_add(1);
+                    self.sent_off += len as u64;
+                    self.emit(to, &b);
+                }
+            }
+            "fin" => {
+                self.skip_ahead();
+                let ahead = geti("ahead", 0);
+                let seq = (self.seq_nr as i64 + ahead) as u16;
+                let b = self.header(1, seq, self.in_order, self.wnd, None);
+                if ahead == 0 {
+                    self.seq_nr = self.seq_nr.wrapping_add(1);
+                }
+                self.emit(to, &b);
+            }
+            "reset" => {
+                let rel = geti("rel", 0);
+                let b = self.header(3, self.seq_nr, (self.in_order as i64 + rel) as u16, 0, None);
+                self.emit(to, &b);
+            }
+            "state_as_fin" => {
+                // some clients answer a FIN with ST_STATE carrying seq_nr + 1
+                let b = self.header(2, self.seq_nr, self.in_order, self.wnd, None);
+                self.emit(to, &b);
+            }
+            "raw" => {
+                if let Some(a) = intent.get("bytes").and_then(|v| v.as_array()) {
+                    let mut b: Vec<u8> = a.iter().map(|x| x.as_u64().unwrap_or(0) as u8).collect();
+                    // optional patching of the connection id / seq / ack so that hostile packets hit the live connection
+                    if intent.get("patch_cid").and_then(|v| v.as_bool()).unwrap_or(false) && b.len() >= 4 {
+                        b[2..4].copy_from_slice(&self.cid_tx.to_be_bytes());
+                    }
+                    if intent.get("patch_seq").and_then(|v| v.as_bool()).unwrap_or(false) && b.len() >= 20 {
+                        let s = (self.seq_nr as i64 + geti("seq_rel", 0)) as u16;
+                        let a = (self.in_order as i64 + geti("ack_rel", 0)) as u16;
+                        b[16..18].copy_from_slice(&s.to_be_bytes());
+                        b[18..20].copy_from_slice(&a.to_be_bytes());
+                    }
+                    self.emit(to, &b);
+                }
+            }
+            "hdr" => {
+                // a well-formed header with arbitrary field values relative to the live connection
+                let ty = geti("type", 2) as u8;
+                let seq = (self.seq_nr as i64 + geti("seq_rel", 0)) as u16;
+                let ack = (self.in_order as i64 + geti("ack_rel", 0)) as u16;
+                let sack = intent.get("sack_bytes").and_then(|v| v.as_array()).map(|a| {
+                    a.iter().map(|x| x.as_u64().unwrap_or(0) as u8).collect::<Vec<u8>>()
+                });
+                let save = self.cid_tx;
+                if let Some(c) = intent.get("cid_rel").and_then(|v| v.as_i64()) {
+                    self.cid_tx = (self.cid_tx as i64 + c) as u16;
+                }
+                let mut b = self.header(ty, seq, ack, self.wnd, sack);
+                self.cid_tx = save;
+                let plen = geti("plen", 0) as usize;
+                if plen > 0 {
+                    b.extend(std::iter::repeat(0xEEu8).take(plen));
+                }
+                self.emit(to, &b);
+            }
+            "drain" | "" => {}
+            _ => {}
+        }
+    }
 }
